@@ -91,8 +91,30 @@ func (t *tailBuffer) String() string {
 	return string(t.buf)
 }
 
+var (
+	superRoot string // scratch root of this supervisor; every worker gets a sub-directory, removed at the end
+	workerSeq int
+	seqMu     sync.Mutex
+)
+
+func scratchRoot() string {
+	root := ""
+	if fi, err := os.Stat("/dev/shm"); err == nil && fi.IsDir() {
+		root = "/dev/shm"
+	}
+	d, err := os.MkdirTemp(root, "vfastsync-")
+	if err != nil {
+		panic(err)
+	}
+	return d
+}
+
 func startWorker() (*workerProc, error) {
 	cmd := exec.Command(os.Args[0], "-worker")
+	seqMu.Lock()
+	workerSeq++
+	cmd.Env = append(os.Environ(), fmt.Sprintf("VERIF_FS_BASE=%s/w%d", superRoot, workerSeq))
+	seqMu.Unlock()
 	in, err := cmd.StdinPipe()
 	if err != nil {
 		return nil, err
@@ -143,6 +165,8 @@ func panicSite(stderr string) (site string, excerpt string) {
 
 func supervise(traces []mbt.Trace) *mbt.Report {
 	rep := mbt.NewReport()
+	superRoot = scratchRoot()
+	defer os.RemoveAll(superRoot)
 	nw := 6
 	if v, err := strconv.Atoi(os.Getenv("VERIF_FS_WORKERS")); err == nil && v > 0 {
 		nw = v
